@@ -35,7 +35,7 @@ TRUSTED_BASE = [
     "tools/gen_c02.py: reads live packer objects by exact class + constructor state, and class attributes format_list/names/msg_id",
     "spec/doc_wire_format.json: hand transcription of the Datatypes table of doc/reference/serialization.rst "
     "(typos 32s/64s/74s resolved by type name); frozen_undocumented / layouts / msg_ids are the pinned commit's values",
-    "hand-written Lean model of the packers, of the 18 old-style to_pack_list/from_unpack_list pairs and of CellPayload "
+    "hand-written Lean model of the packers, of the 16 old-style to_pack_list/from_unpack_list pairs and of CellPayload "
     "(Ipv8/C02/Model.lean, OldPayloads.lean), tied by the correspondence run",
     "struct float conversion, socket.inet_pton/inet_ntop/inet_aton/inet_ntoa, the UTF-8 codec, array.array, key parsing in dht Node",
 ]
@@ -249,6 +249,11 @@ def doc_encode(d: dict, v) -> bytes:
         body = b"".join(doc_encode(f, x) for f, x in zip(d["fields"], v, strict=True))
         return len(body).to_bytes(2, "big") + body
     raise ValueError(k)
+
+
+def doc_encode_body(d: dict, v) -> bytes:
+    """the fields of a message (a `nested` layout) one after the other, without a length prefix"""
+    return b"".join(doc_encode(f, x) for f, x in zip(d["fields"], v, strict=True))
 
 
 # =====================================================================================================================
@@ -871,7 +876,7 @@ class Run:
         lay, vals = self.golden_values(qn, obj)
         if lay is None:
             return None
-        return doc_encode(lay, vals)[2:]
+        return doc_encode_body(lay, vals)
 
     def golden_values(self, qn, obj):
         frozen = {e["name"]: e for e in self.spec["layouts"]}
@@ -1266,7 +1271,7 @@ class Run:
     def build_class(self, rng, layout, compiled: bool):
         """a VariablePayload class for an ad-hoc layout (nested layouts become nested classes)"""
         from ipv8.messaging.lazy_payload import VariablePayload, vp_compile
-        fl, names = [], []
+        fl, names, hooks = [], [], {}
         for i, f in enumerate(layout["fields"]):
             if f["kind"] == "nested":
                 fl.append(self.build_class(rng, f, compiled))
@@ -1280,9 +1285,40 @@ class Run:
             else:
                 fl.append(f["name"])
                 names.append(f"f{i}")
-        cls = type("AdHoc", (VariablePayload,), {"format_list": fl, "names": names})
+                # field-specific pack/unpack rules (`fix_pack_<name>` / `fix_unpack_<name>`): a self-inverse transformation
+                hk = self.hook_kind(f)
+                if hk and rng.random() < 0.25:
+                    f["hook"] = hk
+                    h = HOOKS[hk]
+                    hooks[f"fix_pack_f{i}"] = (lambda self_, v, _h=h: _h(v))
+                    hooks[f"fix_unpack_f{i}"] = classmethod(lambda cls_, v, _h=h: _h(v))
+                    self.ctx.count(f"adhoc_hook:{'compiled' if compiled else 'interpreted'}:"
+                                   + ("behind-bits" if "bits" in fl else "no-bits-before"))
+        cls = type("AdHoc", (VariablePayload,), {"format_list": fl, "names": names, **hooks})
         layout["cls_obj"] = cls
         return vp_compile(cls) if compiled else cls
+
+    @staticmethod
+    def hook_kind(f):
+        if f["kind"] == "struct" and len(f["fields"]) == 1 and f["fields"][0][0] in ("uint", "sint"):
+            return "xor1"
+        if f["kind"] in ("varlen", "raw") or (f["kind"] == "struct" and len(f["fields"]) == 1 and f["fields"][0][0] == "fixed"):
+            return "rev"
+        return None
+
+    def apply_hooks(self, layout, vals):
+        """attribute values -> the values that travel (and back: the transformations are their own inverse)"""
+        out = []
+        for f, v in zip(layout["fields"], vals):
+            if f["kind"] == "nested":
+                out.append(self.apply_hooks(f, v))
+            elif f["kind"] == "listOf" and f["elem"]["kind"] == "nested" and "name" not in f:
+                out.append([self.apply_hooks(f["elem"], x) for x in v])
+            elif f.get("hook"):
+                out.append(HOOKS[f["hook"]](v))
+            else:
+                out.append(v)
+        return out
 
     def instantiate(self, layout, vals):
         args = []
@@ -1327,6 +1363,8 @@ class Run:
                 fields.append(self.doc.get(f.get("name"), f))
         return {"kind": "nested", "fields": fields}
 
+    BIG_BODIES = [(32767, False), (32768, False), (40000, True), (65535, False), (65535, True), (50000, False)]
+
     def adhoc(self, n: int):
         ctx = self.ctx
         for idx in range(1, n + 1):
@@ -1336,6 +1374,16 @@ class Run:
             layout = self.gen_layout(rng)
             compiled = rng.random() < 0.5
             vals = gen_value(rng, layout, ctx)
+            if idx <= len(self.BIG_BODIES):
+                # nested / listed messages whose BODY is close to the 2-byte length limit (32 KiB .. 64 KiB - 1)
+                size, listed = self.BIG_BODIES[idx - 1]
+                reg = self.info["registry"]
+                inner = {"kind": "nested", "fields": [{**reg["B"], "name": "B"}, {**reg["raw"], "name": "raw"}]}
+                mid = {"kind": "listOf", "len_width": 1, "elem": inner} if listed else inner
+                layout = {"kind": "nested", "fields": [{**reg["H"], "name": "H"}, mid, {**reg["B"], "name": "B"}]}
+                body = [5, rbytes(rng, size - 1)]
+                vals = [0xBEEF, [body, [6, b"x"]] if listed else body, 7]
+                ctx.count("nested_body_size:" + ("32768-65535" if size >= 32768 else "below-32768"))
             self.build_class(rng, layout, compiled)
             ftok = fmt_token(layout)
             rep = {"section": S_ADHOC, "index": idx, "format": ftok, "values": short_repr(vals, 400), "compiled": compiled}
@@ -1357,10 +1405,11 @@ class Run:
             except Exception as e:
                 ctx.oracle_fail("adhoc:pack-raises", f"packing legal values for {ftok} raises {type(e).__name__}: {e}", rep)
                 continue
-            vtok = token(layout, vals)
+            wire_vals = self.apply_hooks(layout, vals)
+            vtok = token(layout, wire_vals)
             self.model(f"packl {ftok} {vtok}", "ok " + hx(packed), rep)
             try:
-                want = doc_encode(self.doc_view(layout), vals)[2:]
+                want = doc_encode_body(self.doc_view(layout), wire_vals)
             except (NotEncodable, OverflowError, struct.error, ValueError, TypeError, AttributeError) as e:
                 want = None
                 ctx.oracle_fail("adhoc:doc-bytes", f"{ftok}: values do not fit the documented formats ({type(e).__name__}: {e})", rep)
@@ -1391,7 +1440,7 @@ class Run:
             except Exception as e:
                 ctx.oracle_fail("adhoc:reencode", f"{ftok}: re-encoding raises {type(e).__name__}", rep)
             try:
-                gtok = token(layout, self.norm(layout, gvals))
+                gtok = token(layout, self.norm(layout, self.apply_hooks(layout, gvals)))
             except Exception as e:
                 gtok = f"untokenizable:{type(e).__name__}"
             self.model(f"unpackl {ftok} {hx(data)} {off}", f"ok {gtok} {new}", rep)
@@ -1400,6 +1449,8 @@ class Run:
     # --- section: dataclass-defined payloads, inheritance chains and instantiation histories ---------------------------------
     DC_FMT_NAMES = ["H", "I", "Q", "B", "l", "q", "f", "d", "?", "c", "20s", "32s", "varlenH", "varlenI", "varlenBx2",
                     "varlenHutf8", "varlenH-list", "ip_address", "address", "ipv4", "arrayH-q"]
+
+    SEQ_PY = {"list": list, "tuple": tuple, "set": set}
 
     def dc_field(self, rng, leafs, i):
         """-> (field name, annotation, documented layout, kind) for one random dataclass field"""
@@ -1416,9 +1467,12 @@ class Run:
             name = rng.choice([n for n in self.DC_FMT_NAMES if n in self.doc and n in self.info["registry"]])
             return (f"f{i}", type_from_format(name), self.doc[name], "fmt:" + name)
         leaf = rng.choice(leafs)
-        if r < 0.88:
+        if r < 0.85:
             return (f"f{i}", leaf["cls"], leaf["layout"], "nested")
-        return (f"f{i}", list[leaf["cls"]], {"kind": "listOf", "len_width": 1, "elem": leaf["layout"]}, "nestedlist")
+        lay = {"kind": "listOf", "len_width": 1, "elem": leaf["layout"]}
+        if r < 0.93:
+            return (f"f{i}", list[leaf["cls"]], lay, "nestedlist")
+        return (f"f{i}", tuple[leaf["cls"]], lay, "nestedtuple")
 
     def dc_make(self, name, fields, base, msg_id):
         import dataclasses
@@ -1428,7 +1482,7 @@ class Run:
     def dc_value(self, rng, f, build=True):
         """-> (constructor argument, value in layout shape, expected field value after decoding)"""
         kind = f[3]
-        if kind == "nested" or kind == "nestedlist":
+        if kind in ("nested", "nestedlist", "nestedtuple"):
             leaf = f[4]
             n = 1 if kind == "nested" else rng.choice([0, 1, 2, 3])
             subs = []
@@ -1437,7 +1491,8 @@ class Run:
                 subs.append((leaf["cls"](*vals) if build else None, vals))
             if kind == "nested":
                 return subs[0][0], subs[0][1], subs[0][1]
-            return [o for o, _ in subs], [v for _, v in subs], [v for _, v in subs]
+            seq = tuple if kind == "nestedtuple" else list
+            return seq(o for o, _ in subs), [v for _, v in subs], seq(v for _, v in subs)
         v = gen_value(rng, f[2], self.ctx, 1)
         if kind.startswith("atom:tuple"):
             return tuple(v), list(v), tuple(v)
@@ -1452,8 +1507,9 @@ class Run:
             v = getattr(obj, f[0], "<missing>")
             if f[3] == "nested":
                 out.append([getattr(v, lf[0], "<missing>") for lf in f[4]["fields"]])
-            elif f[3] == "nestedlist":
-                out.append([[getattr(x, lf[0], "<missing>") for lf in f[4]["fields"]] for x in v] if isinstance(v, list) else v)
+            elif f[3] in ("nestedlist", "nestedtuple"):
+                out.append(type(v)([getattr(x, lf[0], "<missing>") for lf in f[4]["fields"]] for x in v)
+                           if isinstance(v, (list, tuple)) else v)
             else:
                 out.append(v)
         return out
@@ -1469,18 +1525,19 @@ class Run:
     KNOWN_RECV_FIRST = "DataClassPayload:decode-before-first-instance"
 
     def dataclass_histories(self, n: int):
-        """random hierarchies of dataclass payloads (base, derived, derived-of-derived / sibling) under random HISTORIES of
-        two kinds of steps: `use` (instantiate, encode, decode) and `recv` (decode bytes produced by a conforming peer
-        WITHOUT instantiating the class in this step).  Whatever happened before, every class must encode ALL its
-        (inherited + own) fields in the documented formats and decode to an instance of itself with all fields.  After
-        every step the `names` of every class and the outcome of the decode are compared with the `Dc` model."""
+        """random hierarchies of dataclass payloads (base, derived, derived-of-derived / sibling; nested member classes; sequence
+        fields that a subclass annotates with another container) under random HISTORIES of two kinds of steps: `use`
+        (instantiate, encode, decode) and `recv` (decode a datagram produced by a conforming peer WITHOUT instantiating the
+        class or its members in this step).  Whatever happened before, every class must encode ALL its (inherited + own)
+        fields in the documented formats and decode to an instance of itself with all fields in the annotated containers.
+        The known finding (a class / member class that was never converted cannot be decoded) is filed only for exactly the
+        behaviour it predicts; after every step `cls.names` of every class and the decode outcome are compared with `Dc`."""
         from ipv8.messaging.payload_dataclass import DataClassPayload
         ctx = self.ctx
         for idx in range(1, n + 1):
             if not self.want("dataclass", idx):
                 continue
             rng = self.rng_for("dataclass", idx)
-            # leaf payloads usable as nested members; each is instantiated once so that it is itself converted
             leafs = []
             for j in range(2):
                 lf = [self.dc_field(rng, [], 0) for _ in range(rng.choice([1, 2]))]
@@ -1488,11 +1545,6 @@ class Run:
                       and "tuple" not in f[3] and "set" not in f[3]] or [("l0", int, self.doc["q"], "atom:int")]
                 cls = self.dc_make(f"Leaf{idx}_{j}", lf, DataClassPayload, None)
                 leafs.append({"cls": cls, "fields": lf, "layout": {"kind": "nested", "fields": [f[2] for f in lf]}})
-                try:
-                    cls(*[gen_value(rng, f[2], None, 1) for f in lf])
-                except Exception as e:
-                    ctx.oracle_fail("dataclass.leaf:construct-raises", f"a leaf dataclass payload with {[f[3] for f in lf]} cannot "
-                                    f"be constructed: {type(e).__name__}: {e}", {"section": "dataclass", "index": idx})
             with_id = rng.random() < 0.5
             counter = [0]
 
@@ -1501,153 +1553,256 @@ class Run:
                 for _ in range(k):
                     counter[0] += 1
                     f = self.dc_field(rng, leafs, counter[0])
-                    if f[3] in ("nested", "nestedlist"):
-                        leaf = next(x for x in leafs if x["cls"] is f[1] or list[x["cls"]] == f[1])
+                    if f[3] in ("nested", "nestedlist", "nestedtuple"):
+                        leaf = next(x for x in leafs if x["cls"] is f[1] or f[1] in (list[x["cls"]], tuple[x["cls"]]))
                         f = (*f, leaf)
                     out.append(f)
                 return out
+
+            def reannotate(fields):
+                """a subclass may annotate an inherited sequence-of-scalars field with another container"""
+                out, redeclared = [], []
+                for f in fields:
+                    if f[3].startswith("atom:") and "[" in f[3] and rng.random() < 0.35:
+                        elem = f[3].split("[")[1].rstrip("]")
+                        cont = rng.choice(["list", "tuple"] + (["set"] if elem == "int" else []))
+                        elt = {"int": int, "bool": bool, "float": float}[elem]
+                        f2 = (f[0], self.SEQ_PY[cont][elt], f[2], f"atom:{cont}[{elem}]")
+                        out.append(f2)
+                        if f2[3] != f[3]:
+                            redeclared.append(f2)
+                    else:
+                        out.append(f)
+                return out, redeclared
             bf = new_fields(rng.choice([1, 2, 3]))
             base = self.dc_make(f"DcBase{idx}", bf, DataClassPayload[rng.randrange(1, 200)] if with_id else DataClassPayload, None)
-            classes = [("base", bf, base)]
+            chains = {f[0]: [f[3]] for f in bf}
+            classes = [("base", bf, base, dict(chains))]
             parents = ["x"]
             shape = rng.choice(["chain2", "chain3", "siblings", "chain2"])
-            cf = bf + new_fields(rng.choice([1, 2]))
-            child = self.dc_make(f"DcChild{idx}", cf[len(bf):], base, rng.randrange(1, 200) if with_id else None)
-            classes.append(("derived", cf, child))
-            parents.append("0")
+
+            def derive(role, pfields, pcls, pchains, pidx):
+                inh, red = reannotate(pfields)
+                own = new_fields(rng.choice([1, 2]))
+                cls_ = self.dc_make(f"Dc{role}{idx}", red + own, pcls, rng.randrange(1, 200) if with_id else None)
+                ch = {k: list(v) for k, v in pchains.items()}
+                for f in inh:
+                    ch[f[0]] = ch[f[0]] + [f[3]] if any(f is r for r in red) else ch[f[0]] + [ch[f[0]][-1]]
+                for f in own:
+                    ch[f[0]] = [f[3]]
+                if red:
+                    ctx.count("dc_reannotated_inherited_field", len(red))
+                classes.append((role, inh + own, cls_, ch))
+                parents.append(str(pidx))
+            derive("derived", bf, base, chains, 0)
             if shape == "chain3":
-                gf = cf + new_fields(rng.choice([1, 2]))
-                classes.append(("derived2", gf, self.dc_make(f"DcGrand{idx}", gf[len(cf):], child,
-                                                            rng.randrange(1, 200) if with_id else None)))
-                parents.append("1")
+                derive("derived2", classes[1][1], classes[1][2], classes[1][3], 1)
             elif shape == "siblings":
-                sf = bf + new_fields(rng.choice([1, 2]))
-                classes.append(("sibling", sf, self.dc_make(f"DcSib{idx}", sf[len(bf):], base,
-                                                            rng.randrange(1, 200) if with_id else None)))
-                parents.append("0")
-            model_names = "/".join(".".join(f[0] for f in fields) for _, fields, _ in classes)
-            # the history: every class used at least once, random order, some repeated; about a quarter of the steps are
-            # receptions (decode only)
-            order = list(range(len(classes)))
+                derive("sibling", bf, base, chains, 0)
+            nh = len(classes)
+            leaf_id = {id(lf["cls"]): nh + j for j, lf in enumerate(leafs)}
+            parents_tok = ",".join(parents + ["x"] * len(leafs))
+            model_names = "/".join([".".join(f[0] for f in fields) for _, fields, _, _ in classes]
+                                   + [".".join(f[0] for f in lf["fields"]) for lf in leafs])
+            converted = set()            # what the known finding's mechanism predicts: classes converted so far
+            ops = []
+            for j, lf in enumerate(leafs):
+                if rng.random() < 0.5:
+                    try:
+                        lf["cls"](*[gen_value(rng, f[2], None, 1) for f in lf["fields"]])
+                        converted.add(nh + j)
+                        ops.append(f"i{nh + j}")
+                    except Exception as e:
+                        ctx.oracle_fail("dataclass.leaf:construct-raises", f"a leaf dataclass payload with {[f[3] for f in lf['fields']]} "
+                                        f"cannot be constructed: {type(e).__name__}: {e}", {"section": "dataclass", "index": idx})
+            order = list(range(nh))
             rng.shuffle(order)
-            order += [rng.randrange(len(classes)) for _ in range(rng.choice([1, 2, 3]))]
+            order += [rng.randrange(nh) for _ in range(rng.choice([1, 2, 3]))]
             steps = []
             for ci in order:
                 if rng.random() < 0.3:
                     steps.append(("recv", ci))
                 steps.append(("use", ci))
             if rng.random() < 0.5:
-                steps.append(("recv", rng.randrange(len(classes))))
+                steps.append(("recv", rng.randrange(nh)))
             ctx.count("dc_shape:" + shape)
             ctx.count("dc_first_step:" + steps[0][0] + "-" + classes[steps[0][1]][0])
-            seen, instantiated, ops = [], set(), []
+            seen = []
+            model_in_sync = True
             for step, (kind, ci) in enumerate(steps):
-                role, fields, cls = classes[ci]
+                role, fields, cls, chain = classes[ci]
                 hist = ">".join(seen + [f"{kind}:{role}"])
                 seen.append(f"{kind}:{role}")
                 layout = {"kind": "nested", "fields": [f[2] for f in fields]}
-                triples = [self.dc_value(rng, f, build=True) for f in fields]
+                triples = [self.dc_value(rng, f, build=(kind == "use")) for f in fields]
                 args, vals, expect = [t[0] for t in triples], [t[1] for t in triples], [t[2] for t in triples]
                 rep = {"section": "dataclass", "index": idx, "step": step, "history": hist, "role": role, "kind": kind,
                        "fields": [(f[0], f[3]) for f in fields], "values": short_repr(vals, 300)}
                 ctx.count("dc_field_kinds:" + ",".join(sorted({f[3].split(":")[0] for f in fields})))
-                for f in fields:
-                    if "tuple" in f[3] or "set" in f[3]:
-                        ctx.count("dc_container_field:" + f[3].split(":")[1].split("[")[0])
-                first_use = ci not in instantiated
-                base_done = 0 in instantiated
-                if kind == "recv":
-                    ctx.count("dc_recv:" + ("before-first-instance" if first_use else "after-instance")
-                              + (":ancestor-converted" if first_use and ci != 0 and base_done else ""))
-                elif role != "base" and first_use:
-                    ctx.count("dc_history:derived-first-used-" + ("after-base" if base_done else "before-base"))
+                # member classes present in the datagram, per field
+                fm = []
+                for f, v in zip(fields, vals):
+                    if f[3] == "nested" or (f[3] in ("nestedlist", "nestedtuple") and len(v) > 0):
+                        fm.append(leaf_id[id(f[4]["cls"])])
+                    else:
+                        fm.append(None)
+                fm_tok = ".".join("x" if m is None else str(m) for m in fm) or "-"
                 site = f"dataclass.{role}"
                 ftok, vtok = fmt_token(layout), token(layout, vals)
                 try:
-                    gold = doc_encode(layout, vals)[2:]
+                    gold = doc_encode_body(layout, vals)
                 except (NotEncodable, OverflowError, struct.error, ValueError, TypeError) as e:
                     ctx.oracle_fail(f"{site}:doc-bytes", f"history {hist}: values do not fit the documented formats ({e})", rep)
                     continue
                 if kind == "use":
+                    ops.append(f"i{ci}")
+                    for f in fields:       # building the arguments instantiated the member classes that occur
+                        pass
+                    for m, v in zip(fm, vals):
+                        if m is not None and m not in converted:
+                            converted.add(m)
+                            ops.insert(len(ops) - 1, f"i{m}")
+                    converted.add(ci)
                     try:
                         obj = cls(*args)
                         packed = self.ser.pack_serializable(obj)
                     except Exception as e:
                         ctx.oracle_fail(f"{site}:pack-raises", f"history {hist}: constructing/packing a {role} dataclass payload "
                                         f"raises {type(e).__name__}: {e}", rep)
-                        ops.append(f"i{ci}")
-                        instantiated.add(ci)
                         continue
-                    ops.append(f"i{ci}")
-                    instantiated.add(ci)
                     self.model(f"packl {ftok} {vtok}", "ok " + hx(packed), rep)
                     if gold != packed:
                         ctx.oracle_fail(f"{site}:doc-bytes", f"history {hist}: a {role} dataclass payload with fields "
                                         f"{[f[3] for f in fields]} is encoded as {packed.hex()[:120]}, its annotated fields in the "
                                         f"documented formats give {gold.hex()[:120]}", {**rep, "bytes": packed.hex()[:400]})
-                else:
-                    ops.append(f"r{ci}")
+                # --- what the known finding predicts for this reception (mechanism: a class is converted by its first
+                #     instantiation or by the first failed attempt to decode it; an unconverted class reads its nearest converted
+                #     ancestor's layout and `from_unpack_list`)
+                predicted = None          # None: everything must be right
+                if kind == "recv":
+                    ops.append(f"r{ci}:{fm_tok}")
+                    anc = ci
+                    while anc is not None and anc not in converted:
+                        anc = int(parents[anc]) if parents[anc] != "x" else None
+                    eff_fields = classes[anc][1] if anc is not None else []
+                    bad_member = next((m for m in fm[:len(eff_fields)] if m is not None and m not in converted), None) \
+                        if anc is not None else None
+                    if anc is None:
+                        predicted = ("raise", None)
+                        converted.add(ci)
+                    elif bad_member is not None:
+                        predicted = ("raise", None)
+                        converted.add(bad_member)
+                    elif anc != ci:
+                        predicted = ("base", anc)
+                    ctx.count("dc_recv:" + ("as-expected-by-property" if predicted is None else
+                                            "known-finding:" + ("unconverted-member" if bad_member is not None else
+                                                                "never-converted" if anc is None else "ancestor-converted")))
                 pre, post = self.embed(rng, gold, False)
                 data, off = pre + gold + post, len(pre)
                 rep = {**rep, "offset": off, "data": data.hex()[:600]}
-                sig = (lambda k: self.KNOWN_RECV_FIRST) if (kind == "recv" and first_use) else (lambda k: f"{site}:{k}")
-                outcome = "raise"
+                outcome, got, new = "raise", None, None
                 try:
                     got, new = self.ser.unpack_serializable(cls, data, off)
+                    outcome = next((f"cls{k}" for k, (_, _, c, _) in enumerate(classes) if type(got) is c), "other")
                 except Exception as e:
-                    got = None
-                    self.fail_limited(sig("unpack-raises"), f"history {hist}: decoding a {role} dataclass payload "
-                                    + ("that has not been instantiated before " if kind == "recv" and first_use else "")
-                                    + f"at offset {off} raises {type(e).__name__}: {e}", rep)
-                    if kind == "use":
-                        self.model(f"unpackl {ftok} {hx(data)} {off}", "err", rep)
-                if got is not None:
-                    outcome = next((f"cls{k}" for k, (_, _, c) in enumerate(classes) if type(got) is c), "other")
-                    if type(got) is not cls:
-                        self.fail_limited(sig("type"), f"history {hist}: decoded object is a {type(got).__name__}, expected "
-                                        f"{cls.__name__}" + (" (class not instantiated before)" if kind == "recv" and first_use else ""), rep)
-                    gvals = self.dc_extract(fields, got)
-                    try:
-                        equal = same(self.norm(layout, expect), self.norm(layout, gvals))
-                        loose = equal or same(self.norm(layout, self.listify(expect)), self.norm(layout, self.listify(gvals)))
-                    except Exception:      # decoded object lacks fields / has fields of another shape
-                        equal = loose = False
-                    if not equal and loose and type(got) is cls:
-                        bad = [(f[0], f[3].split(":")[1]) for f, e, g in zip(fields, expect, gvals)
-                               if ("tuple[" in f[3] or "set[" in f[3]) and type(e) is not type(g)]
-                        self.fail_limited("DataClassPayload:tuple-set-field-decodes-as-list", f"history {hist}: fields annotated "
-                                        f"{bad} decode as list objects (same items)", rep)
-                    elif not equal:
-                        self.fail_limited(sig("value"), f"history {hist}: fields {short_repr(expect, 160)} decode as "
-                                        f"{short_repr(gvals, 160)}", rep)
-                    if new != off + len(gold):
-                        self.fail_limited(sig("offset"), f"history {hist}: decoder stopped at {new}, message ends at {off + len(gold)}", rep)
-                    has_set = any("set[" in f[3] for f in fields)     # a set has no wire order of its own
-                    if type(got) is cls and not (has_set and any(isinstance(g, (set, frozenset)) for g in gvals)):
+                    err = e
+                # --- exactly the predicted defective behaviour → the known signature (a few per run); anything else is judged
+                if predicted is not None:
+                    exact = False
+                    if predicted[0] == "raise":
+                        exact = got is None and isinstance(err, TypeError)
+                        what = f"raises {type(err).__name__}: {err}" if got is None else f"returns a {type(got).__name__}"
+                    else:
+                        anc_fields = classes[predicted[1]][1]
+                        if got is not None and type(got) is classes[predicted[1]][2]:
+                            alay = {"kind": "nested", "fields": [f[2] for f in anc_fields]}
+                            try:
+                                def bag(vs):     # scalar sequences as sets: the base class may annotate another container
+                                    return [frozenset(repr(x) for x in v) if isinstance(v, (list, tuple, set, frozenset))
+                                            and all(isinstance(x, (int, float, bool)) for x in v) else v for v in vs]
+                                exact = (same(self.norm(alay, bag(self.listify(expect[:len(anc_fields)]))),
+                                              self.norm(alay, bag(self.listify(self.dc_extract(anc_fields, got)))))
+                                         and new == off + len(doc_encode_body(alay, vals[:len(anc_fields)])))
+                            except Exception:
+                                exact = False
+                        what = (f"returns a {type(got).__name__} with only the base class's fields, stopping at {new} of {off + len(gold)}"
+                                if got is not None else f"raises {type(err).__name__}: {err}")
+                    if exact:
+                        self.fail_limited(self.KNOWN_RECV_FIRST, f"history {hist}: decoding a conforming {role} datagram at offset {off} "
+                                          f"{what} (mechanism: {'the class itself was never converted' if anc is None else 'nested member class never converted' if bad_member is not None else 'only a base class was converted'})", rep)
+                    elif got is not None and type(got) is cls and new == off + len(gold):
+                        # the implementation decoded correctly where the known finding predicts a failure: the finding no longer
+                        # reproduces here; stop comparing the class-level state with the model that mirrors the defect
+                        ctx.count("known_finding_not_reproduced")
+                        model_in_sync = False
+                        predicted = None
+                    else:
+                        ctx.oracle_fail(f"{site}:recv-{'raises' if got is None else 'wrong-result'}", f"history {hist}: decoding a conforming "
+                                        f"{role} datagram {what}; not the behaviour of the known finding either", rep)
+                if predicted is None:
+                    if got is None:
+                        ctx.oracle_fail(f"{site}:unpack-raises", f"history {hist}: decoding a {role} dataclass payload at offset {off} "
+                                        f"raises {type(err).__name__}: {err}", rep)
+                        if kind == "use":
+                            self.model(f"unpackl {ftok} {hx(data)} {off}", "err", rep)
+                    else:
+                        if type(got) is not cls:
+                            ctx.oracle_fail(f"{site}:type", f"history {hist}: decoded object is a {type(got).__name__}, expected "
+                                            f"{cls.__name__}", rep)
+                        gvals = self.dc_extract(fields, got)
                         try:
-                            if self.ser.pack_serializable(got) != gold:
-                                ctx.oracle_fail(sig("reencode"), f"history {hist}: re-encoding the decoded message differs", rep)
-                        except Exception as e:
-                            ctx.oracle_fail(sig("reencode"), f"history {hist}: re-encoding raises {type(e).__name__}", rep)
-                    if (kind == "use" or not first_use) and not (has_set and any(isinstance(g, (set, frozenset)) for g in gvals)):
-                        try:
-                            gtok = token(layout, self.norm(layout, self.listify(gvals)))
-                        except Exception as e:
-                            gtok = f"untokenizable:{type(e).__name__}"
-                        self.model(f"unpackl {ftok} {hx(data)} {off}", f"ok {gtok} {new}", rep)
-                if got is not None and type(got) is cls:
-                    for f, g in zip(fields, gvals):
-                        if f[3].startswith("atom:") and "[" in f[3]:
-                            ann = f[3].split(":")[1].split("[")[0]
-                            self.model(f"dccont {ann}", type(g).__name__, rep)
+                            equal = same(self.norm(layout, expect), self.norm(layout, gvals))
+                            loose = equal or same(self.norm(layout, self.listify(expect)), self.norm(layout, self.listify(gvals)))
+                        except Exception:      # decoded object lacks fields / has fields of another shape
+                            equal = loose = False
+                        if equal and any(f[3] in ("nestedlist", "nestedtuple") and type(e) is not type(g)
+                                         for f, e, g in zip(fields, expect, gvals)):
+                            equal, loose = False, True       # `norm` compares lists of payloads element-wise; the container counts too
+                        if not equal and loose and type(got) is cls:
+                            bad = [(f[0], f[3].split(":")[-1], type(g).__name__) for f, e, g in zip(fields, expect, gvals)
+                                   if type(e) is not type(g) and ("[" in f[3] or f[3] in ("nestedlist", "nestedtuple"))]
+                            ctx.oracle_fail(f"{site}:container", f"history {hist}: sequence fields (name, annotation in this class, "
+                                            f"decoded container) {bad} do not come back in the annotated container", rep)
+                        elif not equal:
+                            ctx.oracle_fail(f"{site}:value", f"history {hist}: fields {short_repr(expect, 160)} decode as "
+                                            f"{short_repr(gvals, 160)}", rep)
+                        if new != off + len(gold):
+                            ctx.oracle_fail(f"{site}:offset", f"history {hist}: decoder stopped at {new}, message ends at {off + len(gold)}", rep)
+                        has_set = any(isinstance(g, (set, frozenset)) for g in gvals)
+                        if type(got) is cls:
+                            try:
+                                again = self.ser.pack_serializable(got)
+                                if not has_set and again != gold:
+                                    ctx.oracle_fail(f"{site}:reencode", f"history {hist}: re-encoding the decoded message differs", rep)
+                                elif has_set:      # a set has no wire order of its own: the re-encoding must decode to the same fields
+                                    g2, _ = self.ser.unpack_serializable(cls, again, 0)
+                                    if len(again) != len(gold) or not same(self.norm(layout, self.dc_extract(fields, g2)), self.norm(layout, gvals)):
+                                        ctx.oracle_fail(f"{site}:reencode", f"history {hist}: re-encoding the decoded message and "
+                                                        f"decoding it again gives other fields", rep)
+                            except Exception as e:
+                                ctx.oracle_fail(f"{site}:reencode", f"history {hist}: re-encoding raises {type(e).__name__}", rep)
+                            for f, g in zip(fields, gvals):
+                                if f[3].startswith("atom:") and "[" in f[3] and model_in_sync:
+                                    anns = ",".join(a.split(":")[1].split("[")[0] for a in chain[f[0]])
+                                    self.model(f"dcrule {anns}", type(g).__name__, rep)
+                                    if len(set(chain[f[0]])) > 1:
+                                        ctx.count("dc_container_chain:" + anns.replace(",", ">"))
+                        if not has_set:
+                            try:
+                                gtok = token(layout, self.norm(layout, self.listify(gvals)))
+                            except Exception as e:
+                                gtok = f"untokenizable:{type(e).__name__}"
+                            self.model(f"unpackl {ftok} {hx(data)} {off}", f"ok {gtok} {new}", rep)
                 # class-level state after the step vs the Dc model
-                impl_names = "|".join(".".join(c.names) if c.names else "-" for _, _, c in classes)
-                res = "inst" if kind == "use" else outcome
-                self.model(f"dc {','.join(parents)} {model_names} {','.join(ops)}", f"{res};{impl_names}", rep)
+                if model_in_sync:
+                    allc = [c for _, _, c, _ in classes] + [lf["cls"] for lf in leafs]
+                    impl_names = "|".join(".".join(c.names) if c.names else "-" for c in allc)
+                    res = "inst" if kind == "use" else outcome
+                    self.model(f"dc {parents_tok} {model_names} {','.join(ops)}", f"{res};{impl_names}", rep)
                 ctx.case(("dataclass", idx, step, vtok, off), off > 0 or any(gold))
-            # leave no attributes behind on the harness module
             import sys as _sys
-            for _, _, c in classes:
+            for _, _, c, _ in classes:
                 _sys.modules[__name__].__dict__.pop(c.__name__, None)
             for lf in leafs:
                 _sys.modules[__name__].__dict__.pop(lf["cls"].__name__, None)
@@ -1679,13 +1834,17 @@ class Run:
         serializer must resolve every name to its own last registration, else to the default packer, must know no other
         names, and `default_serializer` must still be the documented table."""
         import asyncio
-        from ipv8.community import Community, CommunitySettings
-        from ipv8.keyvault.crypto import default_eccrypto
-        from ipv8.messaging.serialization import Serializer, default_serializer
-        from ipv8.peer import Peer
-        from ipv8.peerdiscovery.network import Network
-        from ipv8.test.mocking.endpoint import AutoMockEndpoint
         ctx = self.ctx
+        try:
+            from ipv8.community import Community, CommunitySettings
+            from ipv8.keyvault.crypto import default_eccrypto
+            from ipv8.messaging.serialization import Serializer, default_serializer
+            from ipv8.peer import Peer
+            from ipv8.peerdiscovery.network import Network
+            from ipv8.test.mocking.endpoint import AutoMockEndpoint
+        except Exception as e:      # the scaffolding to run overlays in-process is not available: not a statement about C02
+            ctx.count(f"overlay_isolation:skipped:{type(e).__name__}")
+            return
         reg = self.info["registry"]
         origin = self.info.get("origin", {})
         extra_names = sorted(nm for nm in reg if origin.get(nm, "Serializer") != "Serializer")
@@ -1715,6 +1874,15 @@ class Run:
                     plans.append(("adhoc", regs))
             my_peer = Peer(default_eccrypto.generate_key("curve25519"))
             overlays, sers, model_regs = [], [], []
+            # control: an overlay without registrations of its own, created first; what IT knows is what every overlay starts from
+            try:
+                control = type(f"IsoCtl{idx}", (Community,), {"community_id": b"\xfe" * 20})(
+                    CommunitySettings(my_peer=my_peer, endpoint=AutoMockEndpoint(), network=Network()))
+            except Exception as e:
+                ctx.count(f"overlay_isolation:skipped:{type(e).__name__}")
+                return
+            overlays.append(control)
+            baseline = set(control.serializer.get_available_formats())
             for k, (kind, what) in enumerate(plans):
                 if kind == "shipped":
                     ser = object.__new__(what).get_serializer()
@@ -1752,7 +1920,7 @@ class Run:
             for kname, ser, own in targets:
                 rep = {"section": "overlays", "index": idx, "overlay": kname,
                        "registrations": [[pl[0], pl[1] if pl[0] == "adhoc" else pl[1].__name__] for pl in plans]}
-                expected_names = set(defaults) | set(own)
+                expected_names = baseline | set(own)
                 have = set(ser.get_available_formats())
                 if have != expected_names:
                     ctx.oracle_fail("Overlay.get_serializer:isolation", f"the serializer of overlay {kname} knows the formats "
@@ -1955,6 +2123,9 @@ class Run:
             if name in reg and reg[name] != d:
                 ctx.count("registry_differs_from_doc")
         ctx.case((S_SPEC,), True)
+
+
+HOOKS = {"xor1": lambda v: v ^ 1, "rev": lambda v: bytes(v)[::-1]}
 
 
 def depth_of(layout) -> int:
